@@ -345,6 +345,9 @@ func c27(c *hx.Ctx) {
 		var m symMsg
 		if c.Rng.Intn(3) == 0 {
 			m = honest(c.Rng.Intn(4), g.data("v"), g.pickCh(), c.Rng.Intn(4))
+			if c.Rng.Intn(6) == 0 {
+				m.body.data, m.sig.body.data = []byte{}, []byte{}
+			}
 		} else {
 			m = g.forged()
 		}
@@ -488,7 +491,7 @@ func c27(c *hx.Ctx) {
 			fwdT = append(fwdT, "("+hx.Nat(p)+", "+hx.NatList(res.forwarded[p])+")")
 		}
 		desc := map[string]any{"kind": "node", "subs": s.subs, "announced": s.pcs, "classes": classes,
-			"delivered": res.descDelivered(), "forwarded": res.forwarded, "timeout": res.timeout}
+			"delivered": res.descDelivered(), "forwarded": res.forwarded, "timeout": res.timeout, "observer1_gated": s.gated}
 		c.Case(hx.App("Node27", hx.List(subsT), hx.List(pcsT), hx.Nat(0), hx.List(msgsT), hx.List(delT), hx.List(fwdT)), desc)
 		if len(res.delivered) > 1 {
 			c.Nontrivial(fmt.Sprint(desc))
@@ -497,16 +500,35 @@ func c27(c *hx.Ctx) {
 			c.Failf("c27-marker-timeout", desc, "the marker message was not processed within the deadline")
 		}
 		// ---- direct oracle on the observed behaviour ----
-		byData := map[string]symMsg{}
+		byData := map[string][]symMsg{}
 		for _, m := range s.msgs {
 			if !m.body.junk {
-				if _, dup := byData[string(m.body.data)]; !dup || m.class == "honest" || m.class == "marker" {
-					byData[string(m.body.data)] = m
-				}
+				byData[string(m.body.data)] = append(byData[string(m.body.data)], m)
 			}
 		}
+		isGood := func(cl string) bool {
+			return cl == "honest" || cl == "honest-empty" || cl == "marker" || cl == "replay"
+		}
+		// the sent message a delivery is attributed to: same data, preferably an authentic one for that channel and sender
+		lookup := func(d delivery) (symMsg, bool) {
+			l := byData[string(d.data)]
+			for _, m := range l {
+				if isGood(m.class) && m.body.ch == d.ch && m.from.k == d.from {
+					return m, true
+				}
+			}
+			for _, m := range l {
+				if isGood(m.class) {
+					return m, true
+				}
+			}
+			if len(l) > 0 {
+				return l[0], true
+			}
+			return symMsg{}, false
+		}
 		for _, d := range res.delivered {
-			m, ok := byData[string(d.data)]
+			m, ok := lookup(d)
 			okClass := ok && (m.class == "honest" || m.class == "honest-empty" || m.class == "marker" || m.class == "replay")
 			switch {
 			case !okClass:
@@ -545,6 +567,48 @@ func c27(c *hx.Ctx) {
 					c.Failf("c27-forwarded-twice", desc, "message %d forwarded twice to peer %d", idx, p)
 				}
 				seen[idx] = true
+			}
+		}
+		// what is authentic for a held channel is handed to the handlers and forwarded to every
+		// announced peer other than the sender and the signer (nothing is dropped on the way)
+		{
+			deliveredKey := map[string]bool{}
+			for _, d := range res.delivered {
+				deliveredKey[fmt.Sprint(d.ch, "/", d.from, "/", string(d.data))] = true
+			}
+			seenMsg := map[string]bool{}
+			for idx, m := range s.msgs {
+				if !(m.class == "honest" || m.class == "honest-empty" || m.class == "marker") {
+					continue
+				}
+				id := m.term()
+				if seenMsg[id] {
+					continue
+				}
+				seenMsg[id] = true
+				if s.subs[m.body.ch] > 0 && !deliveredKey[fmt.Sprint(m.body.ch, "/", m.from.k, "/", string(m.body.data))] {
+					c.Failf("c27-honest-not-delivered", desc, "authentic message %d (%q on %q from key %d) was not handed to the %d handlers", idx, m.body.data, m.body.ch, m.from.k, s.subs[m.body.ch])
+				}
+				for _, p := range []int{1, 2} {
+					ann := false
+					for _, pc := range s.pcs {
+						if pc[0].(int) == p && pc[1].(string) == m.body.ch {
+							ann = true
+						}
+					}
+					if !ann || m.from.k == p {
+						continue
+					}
+					n := 0
+					for _, x := range res.forwarded[p] {
+						if x == idx {
+							n++
+						}
+					}
+					if n == 0 {
+						c.Failf("c27-honest-not-forwarded", desc, "authentic message %d on %q was not forwarded to announced peer %d (gated=%v)", idx, m.body.ch, p, s.gated)
+					}
+				}
 			}
 		}
 		if len(res.backToSender) > 0 {
